@@ -17,6 +17,18 @@ def buffer_process(w):
     data = w.get("data") or ""
     # the counter-model pins the loop-head state, not the text fed: also try the canonical partial elements
     candidates = [data, "<getProperties vers", "<getProperties version='1.7'/", "junk <setTextVector device='d'"]
+    # complete, well-formed elements the message classes refuse, each in its own way (unknown child, missing required attribute of a
+    # message / of a part, value outside a vocabulary, wrong child kind, unexpected attribute, no children, not a number)
+    candidates += ['<newTextVector name="T"><oneText name="a">x</oneText></newTextVector>',
+                   '<newTextVector device="CAM" name="T"><oneText>x</oneText></newTextVector>',
+                   '<newBLOBVector device="CAM" name="B"><oneBLOB name="b" format=".fits">QQ==</oneBLOB></newBLOBVector>',
+                   '<newSwitchVector device="CAM" name="S"><oneSwitch name="a">Maybe</oneSwitch></newSwitchVector>',
+                   '<newSwitchVector device="CAM" name="S"><oneText name="a">On</oneText></newSwitchVector>',
+                   '<newNumberVector device="CAM" name="N"><oneNumber name="n">1:2:3:4</oneNumber></newNumberVector>',
+                   '<newNumberVector device="CAM" name="N"><bogus name="n">1</bogus></newNumberVector>',
+                   '<setTextVector device="CAM" name="T" state="Sideways"/>', '<enableBLOB device="CAM">Perhaps</enableBLOB>', '<enableBLOB/>',
+                   '<defLight name="l">Ok</defLight>', '<oneBLOB name="b"/>', '<delProperty/>', '<message/>', '<getProperties/>']
+    candidates += [c + '<getProperties version="1.7"/>' for c in candidates[4:8]]
     for d in candidates:
         b = Buffer()
         if "threshold" in w:
